@@ -20,12 +20,6 @@ func C01(p *Prog, r *Run) {
 	gf := func(n string) *types.Var { return p.Field(PkgG, "Genome", n) }
 
 	r.Rule("C01.1", "who may write: the gene list, node list, node index and trait list of a genome are written only by the constructors, the readers, the insertion helpers and duplicate", func() {
-		allowed := map[string]map[string]string{
-			"Genes":       {"newGenomeWithNodeIdMap": "constructor", "newGenomeRand": "random constructor", "geneInsert": "ordered insertion", "Read": "readers build the genome they return"},
-			"Nodes":       {"newGenomeWithNodeIdMap": "constructor", "newGenomeRand": "random constructor", "nodeInsert": "ordered insertion", "addNode": "append used by the readers and the random constructor"},
-			"nodeByIdMap": {"newGenomeWithNodeIdMap": "constructor", "newGenomeRand": "random constructor"},
-			"Traits":      {"newGenomeWithNodeIdMap": "constructor", "newGenomeRand": "random constructor", "Read": "readers build the genome they return"},
-		}
 		// The two functions that the pinned tree lets assemble a genome through the constructor (the checked
 		// constructor newGenome: C01.2; duplicate: C01.7 / C06.2) may as well carry the constructor's body themselves:
 		// a store that INITIALISES a genome the function has just allocated (`&Genome{…}`: one store per field in the
@@ -44,27 +38,24 @@ func C01(p *Prog, r *Run) {
 				}
 			}
 		}
+		allowed := map[string]map[string]string{
+			"Genes":       {"newGenomeWithNodeIdMap": "constructor", "newGenomeRand": "random constructor", "geneInsert": "ordered insertion", "Read": "readers build the genome they return"},
+			"Nodes":       {"newGenomeWithNodeIdMap": "constructor", "newGenomeRand": "random constructor", "nodeInsert": "ordered insertion", "addNode": "append used by the readers and the random constructor"},
+			"nodeByIdMap": {"newGenomeWithNodeIdMap": "constructor", "newGenomeRand": "random constructor"},
+			"Traits":      {"newGenomeWithNodeIdMap": "constructor", "newGenomeRand": "random constructor", "Read": "readers build the genome they return"},
+		}
 		for _, f := range []string{"Genes", "Nodes", "nodeByIdMap", "Traits"} {
 			var bad []string
-			n, nInit := 0, 0
+			n := 0
 			for _, fn := range p.SrcFuncs() {
 				for _, st := range FieldStores(fn, gf(f)) {
 					n++
-					if _, ok := allowed[f][fn.Name()]; ok {
-						continue
+					if _, ok := allowed[f][fn.Name()]; !ok && !initStores[st] { // initStores: a genome assembled in place, see above
+						bad = append(bad, FuncName(fn)+" at "+p.Pos(st.Pos()))
 					}
-					if initStores[st] {
-						nInit++
-						continue
-					}
-					bad = append(bad, FuncName(fn)+" at "+p.Pos(st.Pos()))
 				}
 			}
-			inPlace := ""
-			if nInit > 0 {
-				inPlace = fmt.Sprintf(" (%d of them initialise a genome that newGenome / duplicate has just allocated)", nInit)
-			}
-			r.Check(len(bad) == 0, "writers:"+f, "-", fmt.Sprintf("%d stores, all in %s%s", n, strings.Join(sortedKeys(allowed[f]), ", "), inPlace), "Genome."+f+" is also written by "+strings.Join(bad, "; ")+": the list can lose its order or its agreement with the node index")
+			r.Check(len(bad) == 0, "writers:"+f, "-", fmt.Sprintf("%d stores, all in %s", n, strings.Join(sortedKeys(allowed[f]), ", ")), "Genome."+f+" is also written by "+strings.Join(bad, "; ")+": the list can lose its order or its agreement with the node index")
 		}
 		// the index map itself is updated only by mapNodeId and the constructor that builds it
 		var bad []string
